@@ -301,6 +301,8 @@ def run(ctx):
   ctx.expect_at_least('token-text membership tests in the parser', n_in, 1)
   instance_state(ctx, 'C03.queue', CP, {'_token_generator', '_filename', '_current_token', '_delegate', '_within_block', '_statements_queue'},
                  'parser state beyond the token cursor, the block flag and the statement queue changes how a layout is read')
+  ctx.borrow('C15', 'C15.consumer', 'C03.kinds', instances={'binding', 'block'})     # flat and block form skip alike
+
 
 
 def normal_form(ctx):
